@@ -187,7 +187,7 @@ Example C13_example_document :
   = Ok (VObj [([0x6b], VArr [VNum [0x31]; VStr [0x1D11E; 0x0a]; VBool true; VNull])]).
 Proof. vm_compute. reflexivity. Qed.
 
-(* an unpaired surrogate escape "\uD834" is rejected (allowed by the property), as is a duplicate-free trailing comma *)
+(* an unpaired surrogate escape "\uD834" is rejected (allowed by the property); a trailing comma is TrailingComma *)
 Example C13_lone_surrogate_rejected :
   parse fp_any [0x22; 0x5c; 0x75; 0x44; 0x38; 0x33; 0x34; 0x22] = Err E_ESC /\
   parse fp_any [0x5b; 0x31; 0x2c; 0x5d] = Err E_COMMA.
